@@ -17,7 +17,7 @@ def inv_session_text(n):
     # writer block <write pass; Event operation; Event operation>.  pc: 0 waiting, 1 woken / inside the write pass, 2 pass done (first operation pending),
     # 3 first operation done (second pending)
     return ("implies(p == 1 or p == 2, a and not b) and implies(a and b, p == 3) and implies(p == 2 or p == 3, a and not d) and implies(p == 3, b) and "
-            "implies(not a, not d and p == 0) and 0 <= p and p <= 3")
+            "implies(not a, not d and p == 0) and implies(a and p == 0, d) and implies(p == 1, d) and 0 <= p and p <= 3")
 
 
 def install(R: Registry):
@@ -49,10 +49,13 @@ def install(R: Registry):
                                            subdivide_interval="Float", subdivide_flag="Bool", collection_stopped="Bool", formatter="Formatter", fd="FileObj", sub_index="Int"),
                     ghost=dict(logged="Int",
                                acc="List[LMessage]",     # every message accepted for this data set (selected while recording and not paused), in arrival order
-                               nl="Int"))                # how many of them have been handed to the formatter (in order: acc[0:nl])
-    R.declare_class("DataCollection", fields=dict(_paused="Bool", _recording="Bool", _close="Bool", use_thread="Bool", write_thread="Thread", datasets="List[DataSet]",
+                               nl="Int",                 # how many of them have been handed to the formatter (in order: acc[0:nl])
+                               stale="Bool"))            # the write buffer's content has already been handed to the formatter (after stop(): finalize does not empty it)
+    R.declare_class("Metadata", external=True, fields={})
+    R.declare_class("PathL", external=True, fields={})
+    R.declare_class("DataCollection", fields=dict(metadata="Metadata", dir_fmt="Str", base_path="PathL", _paused="Bool", _recording="Bool", _close="Bool", use_thread="Bool", write_thread="Thread", datasets="List[DataSet]",
                                                   write_to_disk="Event", write_finished="Event", next_write="Float", logger="PyLogger", name="Str",
-                                                  start_time="Float", ref_time="Float", _elapsed_time="Float", save_path="Str"))
+                                                  start_time="Float", ref_time="Float", _elapsed_time="Float", save_path="PathL"))
     R.ghost_global("pcW", "Int")
     R.ghost_global("dirty", "Bool")
     R.ghost_global("dc", "DataCollection")
@@ -64,15 +67,17 @@ def install(R: Registry):
              "forall('i:Int', implies(0 <= i and i < len(c.datasets), c.datasets[i] != null)) and "
              "forall('i:Int j:Int', implies(0 <= i and i < j and j < len(c.datasets), c.datasets[i] != c.datasets[j]))",
              "the collection's two events are distinct objects, its data sets are distinct objects")
-    R.define("clean", "c: DataCollection", "implies(not dirty, forall('i:Int', implies(0 <= i and i < len(c.datasets), len(c.datasets[i].wbuf) == 0)))",
-             "nothing staged and unwritten: every write buffer is empty")
+    R.define("wdone", "s: DataSet", "s.stale or len(s.wbuf) == 0", "the write buffer holds nothing that still has to be written (empty, or already handed over by stop())")
+    R.define("clean", "c: DataCollection", "implies(not dirty, forall('i:Int', implies(0 <= i and i < len(c.datasets), wdone(c.datasets[i])))) and "
+                                           "implies(dirty, forall('i:Int', implies(0 <= i and i < len(c.datasets), not c.datasets[i].stale)))",
+             "nothing staged and unwritten unless `dirty`; while something is staged no write buffer is stale")
 
-    R.define("conserveV", "nl: Int, w: List[LMessage], r: List[LMessage], a: List[LMessage]",
-             "nl >= 0 and len(w) >= 0 and len(r) >= 0 and len(a) == nl + len(w) + len(r) and "
-             "forall('j:Int', implies(0 <= j and j < len(w), w[j] == a[nl + j])) and "
-             "forall('j:Int', implies(0 <= j and j < len(r), r[j] == a[nl + len(w) + j]))",
+    R.define("conserveV", "nl: Int, w: List[LMessage], r: List[LMessage], a: List[LMessage], stale: Bool",
+             "nl >= 0 and len(w) >= 0 and len(r) >= 0 and len(a) == nl + ite(stale, 0, len(w)) + len(r) and "
+             "implies(not stale, forall('j:Int', implies(0 <= j and j < len(w), w[j] == a[nl + j]))) and "
+             "forall('j:Int', implies(0 <= j and j < len(r), r[j] == a[nl + ite(stale, 0, len(w)) + j]))",
              "the accepted sequence is: what was handed to the formatter (a[0:nl]), then the write buffer, then the read buffer - nothing lost, duplicated or reordered", opaque=True)
-    R.define("conserve", "s: DataSet", "conserveV(s.nl, s.wbuf, s.rbuf, s.acc)")
+    R.define("conserve", "s: DataSet", "conserveV(s.nl, s.wbuf, s.rbuf, s.acc, s.stale)")
     R.define("conserve_all", "c: DataCollection", "forall('i:Int', implies(0 <= i and i < len(c.datasets), conserve(c.datasets[i])))")
     R.define("selects", "s: DataSet, m: LMessage", "m != null and (s.all_sub or exists('k:Int', 0 <= k and k < len(s.msg_types) and s.msg_types[k] == m.tid))",
              "the data set selects the message's type")
@@ -94,9 +99,10 @@ def install(R: Registry):
                         # from a quiet state the writer cannot enter a write pass: no data set, formatter or buffer is touched
                         "implies(old(Wquiet(st_a(dc), st_b(dc), pcW, dirty)), forall('s:DataSet', s.formatter == old(s.formatter) and s.wbuf == old(s.wbuf) and s.nl == old(s.nl)) and "
                         "forall('f:Formatter', f.out == old(f.out)))",
-                        "forall('s:DataSet', s.rbuf == old(s.rbuf) and s.acc == old(s.acc) and implies(old(s.formatter) != null, s.formatter != null))",
+                        "forall('s:DataSet', s.rbuf == old(s.rbuf) and s.acc == old(s.acc) and s.stale == old(s.stale) and implies(old(s.formatter) != null, s.formatter != null))",
                         # DataSet.write (verified) preserves the conservation view of every data set it is applied to
-                        "forall('s:DataSet', implies(old(conserve(s)), conserve(s)))"],
+                        "forall('s:DataSet', implies(old(conserve(s)) and not s.stale, conserve(s)))",
+                        "implies(dirty == old(dirty), forall('s:DataSet', implies(old(conserve(s)), conserve(s))))"],
                doc="any number of steps of the writer thread, as extracted from DataCollection.write")
 
     # ------------------------------------------------------------------ threading.Event as used by the recording thread
@@ -115,11 +121,11 @@ def install(R: Registry):
     # ------------------------------------------------------------------ data-set accesses made by the recording thread
     QUIET = ("C17", "Wquiet(st_a(dc), st_b(dc), pcW, dirty)", "the recording thread touches a data set's write buffer / formatter / file only while the writer thread is outside its write pass and cannot enter it")
     INTERF_MOD = ["Event.flag", "glob:pcW", "glob:dirty", "DataSet.wbuf", "DataSet.logged", "DataSet.subdivide_flag", "DataSet.sub_index", "DataSet.nl", "DataSet.formatter", "Formatter.out"]
-    OTHER_DS = "forall('s:DataSet', implies(s != self, s.wbuf == old(s.wbuf) and s.rbuf == old(s.rbuf) and s.acc == old(s.acc) and s.nl == old(s.nl) and s.formatter == old(s.formatter)))"
+    OTHER_DS = "forall('s:DataSet', implies(s != self, s.wbuf == old(s.wbuf) and s.rbuf == old(s.rbuf) and s.acc == old(s.acc) and s.nl == old(s.nl) and s.formatter == old(s.formatter) and s.stale == old(s.stale)))"
     R.contract(D + "DataSet.stage_for_write", tags="C17", prelude="rg_interfere", reveal=["conserveV"],
-               requires=[QUIET, ("C17", "len(self.wbuf) == 0", "the previously staged buffer has been written: staging over it would lose its messages"), "conserve(self)"],
-               modifies=["DataSet.rbuf", "DataSet.wbuf", "glob:dirty"], ghost_exit=["dirty = True"],
-               ensures=[("C17", "self.wbuf == old(self.rbuf) and len(self.rbuf) == 0", "the recorded messages move to the write buffer, in order; recording continues in an empty buffer"),
+               requires=[QUIET, ("C17", "wdone(self)", "the previously staged buffer has been written (or was handed over by stop()): staging over it loses nothing"), "conserve(self)"],
+               modifies=["DataSet.rbuf", "DataSet.wbuf", "DataSet.stale", "glob:dirty"], ghost_exit=["dirty = True", "self.stale = False"],
+               ensures=[("C17", "self.wbuf == old(self.rbuf) and len(self.rbuf) == 0 and not self.stale", "the recorded messages move to the write buffer, in order; recording continues in an empty buffer"),
                         ("C17", "conserve(self) and self.acc == old(self.acc) and self.nl == old(self.nl)", "nothing is lost, duplicated or reordered by staging"),
                         "dirty", OTHER_DS, "self.formatter == old(self.formatter) and forall('f:Formatter', f.out == old(f.out))"])
     # formatter: one record per message, in order (file formats themselves are not decided here)
@@ -133,36 +139,36 @@ def install(R: Registry):
                         "forall('s:DataSet', implies(s != self, s.formatter == old(s.formatter)))"],
                doc="finalize(wbuf) with an empty wbuf, close the file, open the next one with a fresh formatter")
     R.contract(D + "DataSet.write", tags="C17", reveal=["conserveV"],
-               requires=["conserve(self)", "self.formatter != null"],
+               requires=["conserve(self)", "self.formatter != null", ("C17", "not self.stale", "a write pass only follows a staging: a stale buffer is never written twice")],
                modifies=["DataSet.wbuf", "DataSet.nl", "DataSet.subdivide_flag", "DataSet.formatter", "DataSet.fd", "DataSet.sub_index", "Formatter.out"],
                ghost_after={"Formatter.write": "self.nl = self.nl + len(self.wbuf)"},
                ensures=[("C17", "let('f', old(self.formatter), grown_by(f.out, old(self.formatter.out), old(self.wbuf)))", "the formatter receives exactly the staged messages, once, in order"),
                         ("C17", "len(self.wbuf) == 0 and self.nl == old(self.nl) + old(len(self.wbuf)) and self.acc == old(self.acc) and self.rbuf == old(self.rbuf) and conserve(self)",
                          "the write buffer is emptied and the hand-over counter advances by its length: accepted == handed ++ write buffer ++ read buffer still holds")])
     R.contract(D + "DataSet.stop", tags="C17", prelude="rg_interfere", reveal=["conserveV"],
-               requires=[QUIET, ("C17", "len(self.wbuf) == 0", "stop() stages the read buffer over the write buffer: it must have been written"), "conserve(self)", "self.formatter != null",
+               requires=[QUIET, ("C17", "wdone(self)", "stop() stages the read buffer over the write buffer: it must have been written"), "conserve(self)", "self.formatter != null",
                          "not dirty", "dc != null and dc.write_to_disk != null and dc.write_finished != null and dc.write_to_disk != dc.write_finished"],
-               modifies=["DataSet.rbuf", "DataSet.wbuf", "DataSet.nl", "Formatter.out", "glob:dirty"] + INTERF_MOD,
-               ghost_after={"Formatter.finalize": "self.nl = self.nl + len(self.wbuf)"}, ghost_exit=["dirty = False"],
-               ensures=[("C17", "len(self.rbuf) == 0 and self.nl == len(self.acc) and self.acc == old(self.acc)", "after stop every accepted message has been handed to the formatter"),
+               modifies=["DataSet.rbuf", "DataSet.wbuf", "DataSet.nl", "DataSet.stale", "Formatter.out", "glob:dirty"] + INTERF_MOD,
+               ghost_after={"Formatter.finalize": "self.nl = self.nl + len(self.wbuf)"}, ghost_exit=["dirty = False", "self.stale = True"],
+               ensures=[("C17", "len(self.rbuf) == 0 and self.nl == len(self.acc) and self.acc == old(self.acc) and self.stale and conserve(self)", "after stop every accepted message has been handed to the formatter"),
                         ("C17", "grown_by(self.formatter.out, old(self.formatter.out), old(self.rbuf)) and self.formatter == old(self.formatter)", "... the remaining ones exactly once, in order"),
                         OTHER_DS, "not dirty and Wstar(old(st_a(dc)), old(st_b(dc)), old(pcW), False, st_a(dc), st_b(dc), pcW, False)",
                         "forall('e:Event', implies(e != dc.write_to_disk and e != dc.write_finished, e.flag == old(e.flag)))"])
     R.external("DataSet.close", params=dict(self="DataSet"), prelude="rg_interfere", requires=[QUIET], modifies=[], ensures=[])
 
     # ------------------------------------------------------------------ the recording thread
-    SHARED_MOD = sorted(set(INTERF_MOD + ["DataSet.rbuf", "DataSet.acc", "DataSet.next_subdivide", "DataSet.collection_stopped", "DataCollection.next_write", "DataCollection.start_time",
+    SHARED_MOD = sorted(set(INTERF_MOD + ["DataSet.rbuf", "DataSet.acc", "DataSet.stale", "DataSet.next_subdivide", "DataSet.collection_stopped", "DataCollection.next_write", "DataCollection.start_time",
                                           "DataCollection.ref_time", "DataCollection._recording", "DataCollection._paused", "DataCollection._elapsed_time"]))
     INV_NOW = "INVS(st_a(self), st_b(self), pcW, dirty) and clean(self) and conserve_all(self)"
     FMT_OK = "forall('i:Int', implies(0 <= i and i < len(self.datasets), self.datasets[i].formatter != null))"
     R.contract(L + "DataCollection.trigger_write", tags="C17",
                requires=["wfc(self)", INV_NOW, "not st_a(self)", "self.use_thread"],
-               modifies=SHARED_MOD,
+               modifies=SHARED_MOD, ghost_after={"Event.clear": "dirty = True"},      # a write pass is requested (even when there is no data set to stage)
                ensures=[("C17", "wfc(self) and " + INV_NOW, "the hand-shake invariant is re-established; nothing is lost, duplicated or reordered by staging"),
                         ("C17", "forall('s:DataSet', s.acc == old(s.acc) and s.nl == old(s.nl))")],
                loops={1: dict(invariant=[
                    "wfc(self) and not st_a(self) and pcW == 0 and st_a(self) == at_loop(st_a(self)) and conserve_all(self)",
-                   "0 <= idx and forall('i:Int', implies(idx <= i and i < len(self.datasets), len(self.datasets[i].wbuf) == 0))",
+                   "0 <= idx and forall('i:Int', implies(idx <= i and i < len(self.datasets), wdone(self.datasets[i]))) and forall('i:Int', implies(0 <= i and i < idx and i < len(self.datasets), not self.datasets[i].stale))",
                    "self.datasets == at_loop(self.datasets) and implies(idx > 0, dirty) and implies(idx == 0, not dirty)",
                    "forall('s:DataSet', s.acc == old(s.acc) and s.nl == old(s.nl))"])})
     ACTIVE = "not old(self._paused) and old(self._recording)"
@@ -187,19 +193,43 @@ def install(R: Registry):
                    requires=["wfc(self)", INV_NOW, "self.use_thread"], modifies=SHARED_MOD + ["DataCollection._elapsed_time"],
                    ensures=[("C17", "wfc(self) and " + INV_NOW, "pause / resume leave the hand-shake alone"), ("C17", UNTOUCHED, "pause / resume neither record nor drop anything"),
                             ("C17", "self._paused == %s and self._recording == old(self._recording)" % ("True" if fn == "pause" else "False"))])
+    R.external("Metadata.expand_format", params=dict(self="Metadata", s="Str"), returns="Str", pure=True, ensures=[])
+    R.external("PathL.joinpath", params=dict(self="PathL", other="Str"), returns="PathL", pure=True, ensures=["result != null"])
+    R.external("PathL.mkdir", params=dict(self="PathL", parents="Bool", exist_ok="Bool"), pure=True, ensures=[])
+    R.external("DataSet.start", params=dict(self="DataSet", base_path="PathL"), prelude="rg_interfere", requires=[QUIET],
+               modifies=["DataSet.formatter", "DataSet.fd", "DataSet.sub_index", "DataSet.collection_stopped", "DataSet.subdivide_flag", "DataSet.next_subdivide", "Formatter.out"],
+               ensures=["self.formatter != null", "forall('f:Formatter', implies(f != self.formatter, f.out == old(f.out)))",
+                        "forall('s:DataSet', implies(s != self, s.formatter == old(s.formatter)))"],
+               raises={"DataSetExistsError": []},
+               doc="opens the data set's file and a fresh formatter (touches writer-side state: the writer must be quiet)")
+    R.contract(L + "DataCollection.start", tags="C17",
+               requires=["wfc(self)", "self.use_thread", "self.metadata != null and self.base_path != null",
+                         ("C17", "INVW(st_a(self), st_b(self), pcW, dirty) and pcW == 0 and not st_a(self) and not st_b(self) and not dirty",
+                          "ASSUMED at restart: the writer thread has completed the Event operations of its last pass (see DESIGN 11.9)"),
+                         "conserve_all(self)", "forall('i:Int', implies(0 <= i and i < len(self.datasets), wdone(self.datasets[i])))"],
+               modifies=SHARED_MOD + ["DataCollection.save_path", "DataSet.fd"],
+               ensures=[("C17", "wfc(self) and " + INV_NOW, "a (re)started collection satisfies the recording invariant: stale write buffers of the previous session are never written again"),
+                        ("C17", "self._recording and not self._paused and " + UNTOUCHED)],
+               raises={"DataCollectionThreadError": [], "DataSetExistsError": []},
+               loops={1: dict(invariant=["wfc(self) and INVS(st_a(self), st_b(self), pcW, dirty) and not st_a(self) and not dirty and conserve_all(self)",
+                                         "forall('i:Int', implies(0 <= i and i < len(self.datasets), wdone(self.datasets[i])))",
+                                         "self.datasets == at_loop(self.datasets) and " + UNTOUCHED])})
     R.contract(L + "DataCollection.stop", tags="C17",
                requires=["wfc(self)", INV_NOW, FMT_OK],
                modifies=SHARED_MOD,
                ensures=[("C17", "INVW(st_a(self), st_b(self), pcW, dirty) and not st_a(self) and not st_b(self)", "after stop() both flags are clear and the writer is outside its pass"),
                         ("C17", "forall('i:Int', implies(0 <= i and i < len(self.datasets), self.datasets[i].nl == len(self.datasets[i].acc) and self.datasets[i].acc == old(self.datasets[i].acc)))",
-                         "after stop() every message accepted by a data set has been handed to its formatter (exactly once and in order: nl counts a prefix of acc)")],
+                         "after stop() every message accepted by a data set has been handed to its formatter (exactly once and in order: nl counts a prefix of acc)"),
+                        ("C17", "wfc(self) and conserve_all(self) and not dirty and forall('i:Int', implies(0 <= i and i < len(self.datasets), wdone(self.datasets[i]) and len(self.datasets[i].rbuf) == 0))",
+                         "the collection can be started again: nothing is pending")],
                loops={1: dict(invariant=["wfc(self) and INVS(st_a(self), st_b(self), pcW, dirty) and clean(self) and st_a(self) and conserve_all(self)", FMT_OK,
                                          "forall('s:DataSet', s.acc == old(s.acc))"]),
                       2: dict(invariant=["wfc(self) and not st_a(self) and not st_b(self) and INVW(st_a(self), st_b(self), pcW, dirty) and not dirty",
                                          "0 <= idx and self.datasets == at_loop(self.datasets)", FMT_OK, "forall('s:DataSet', s.acc == old(s.acc))",
-                                         "forall('i:Int', implies(idx <= i and i < len(self.datasets), len(self.datasets[i].wbuf) == 0 and conserve(self.datasets[i])))",
-                                         "forall('i:Int', implies(0 <= i and i < idx and i < len(self.datasets), self.datasets[i].nl == len(self.datasets[i].acc)))"])})
+                                         "forall('i:Int', implies(idx <= i and i < len(self.datasets), wdone(self.datasets[i]) and conserve(self.datasets[i])))",
+                                         "forall('i:Int', implies(0 <= i and i < idx and i < len(self.datasets), self.datasets[i].nl == len(self.datasets[i].acc) and self.datasets[i].stale and "
+                                         "conserve(self.datasets[i]) and len(self.datasets[i].rbuf) == 0))"])})
 
 
 LOGGER_SIDECARS = ["contracts.logger_contracts"]
-LOGGER_C17 = [L + "DataCollection.trigger_write", L + "DataCollection.update", L + "DataCollection.stop", L + "DataCollection.pause", L + "DataCollection.resume", D + "DataSet.stage_for_write", D + "DataSet.write", D + "DataSet.stop"]
+LOGGER_C17 = [L + "DataCollection.start", L + "DataCollection.trigger_write", L + "DataCollection.update", L + "DataCollection.stop", L + "DataCollection.pause", L + "DataCollection.resume", D + "DataSet.stage_for_write", D + "DataSet.write", D + "DataSet.stop"]
